@@ -28,6 +28,21 @@ func (t *FnTrans) binop(op token.Token, a, b Val) Val {
 	}
 	// string + literal: remember the literal's text for the confinement rule below
 	litNoSep := ""
+	litOf := func(x Val) (string, bool) {
+		if x.K == VConst && x.C != nil && x.C.Kind() == constant.String {
+			return constant.StringVal(x.C), true
+		}
+		if x.K == VScalar {
+			for lit, name := range t.strLits {
+				if name == x.S {
+					return lit, true
+				}
+			}
+		}
+		return "", false
+	}
+	litA, isLitA := litOf(a)
+	litB, isLitB := litOf(b)
 	if op == token.ADD {
 		for _, x := range []Val{a, b} {
 			txt, isLit := "", false
@@ -150,6 +165,22 @@ func (t *FnTrans) binop(op token.Token, a, b Val) Val {
 			// length fact, as an assumption on this very term
 			ln := t.strLen()
 			t.assume("true", eq(sx(ln, r), t.addIdx(sx(ln, a.S), sx(ln, b.S))), "len(a+b) == len(a)+len(b)")
+			// regular expressions assembled by concatenation: whether the text
+			// begins with the anchor ^ / ends with the anchor $ is decided on
+			// the literal operands (string-level rule; the predicates are the
+			// uninterpreted uf("startsWithCaret"/"endsWithDollar", bool, s))
+			if isLitA || isLitB {
+				caret := t.declareFun("uf.startsWithCaret.Str", []string{"Str"}, "Bool")
+				dollar := t.declareFun("uf.endsWithDollar.Str", []string{"Str"}, "Bool")
+				if isLitA && strings.HasPrefix(litA, "^") {
+					t.assume("true", sx(caret, r), fmt.Sprintf("%q + s begins with the anchor ^", litA))
+				} else if isLitB {
+					t.assume("true", implies(sx(caret, a.S), sx(caret, r)), "s + literal begins with ^ if s does")
+				}
+				if isLitB && strings.HasSuffix(litB, "$") && !strings.HasSuffix(litB, "\\$") {
+					t.assume("true", sx(dollar, r), fmt.Sprintf("s + %q ends with the anchor $", litB))
+				}
+			}
 			if litNoSep != "" && x0IsLit(a, b) {
 				// a plain file name stays a plain file name when a separator-free literal is appended
 				sn := t.declareFun("uf.safeName.Str", []string{"Str"}, "Bool")
